@@ -112,6 +112,8 @@ def run(ctx):
     reg = registry_connector.get()
     canon_models = {v: reg[v].hardware.model for v in reg}
     allm = [(".".join(s), m) for s, m in models.items()] + [("vendor:" + v, m) for v, m in canon_models.items() if m]
+    allm += [("menu:" + v, m) for v, ms in E.MODELS.items() for m in ms]            # real model spellings per family
+    allm += [("unknown", "Acme Router X1"), ("unknown", "")]                        # no database node is true: no vendor
     vendor_classes = {name: type(reg[name]) for name in reg}
     recs = []
     for label, model in allm:
@@ -154,6 +156,13 @@ def run(ctx):
                     r2.register(vendor_classes[n])
                 got = r2.match(hw, None)
                 choices.append(got.NAME if got is not None else "generic")
+                # the same question asked with the model as a string, and without a default (no vendor = the generic vendor object)
+                if front:
+                    from annet.vendors.registry import GENERIC_VENDOR
+                    g2 = r2.match(model, None)
+                    choices.append(g2.NAME if g2 is not None else "generic")
+                    g3 = r2.match(hw)
+                    choices.append("generic" if g3 is GENERIC_VENDOR else getattr(g3, "NAME", "?"))
             # registration history with lookups in between: resolve after every single registration (the answer may only depend on
             # the set of vendors registered at that moment, so the last answer must be the one of the full registry)
             r3 = Registry()
@@ -163,7 +172,8 @@ def run(ctx):
                 last = r3.match(hw, None)
             choices.append(last.NAME if last is not None else "generic")
         recs.append({"id": "model-%d" % len(recs), "kind": "model", "label": label, "model": model, "hits": hits, "seqs": [list(s) for s in seqs],
-                     "trueFull": true_full, "spell": spell, "cands": cands, "choices": choices})
+                     "trueFull": true_full, "spell": spell, "cands": cands, "choices": choices,
+                     "family": label[5:] if label.startswith("menu:") else ""})
         ctx.count()
         if len(true_full) >= 2:
             ctx.nontrivial(model)
